@@ -35,6 +35,18 @@ c85f688 C01
 08d653a C01
 7330182 C01
 cde7c17 C01
+86dd33c C14
+77d33b6 C15
+ae3e1ad C13
+7e7b0ce C13
+f4f12c6 C11
+956d942 C09
+99541ae C09
+7affb3c C05
+2946b4b C05
+db6d889 C10
+a9edc22 C10
+40373e3 C01
 L
 fi
 mv $out.tmp $out
